@@ -8,7 +8,7 @@ TRUSTED = [
     "validated on every run by the bit-exact correspondence of the generated definitions (at Float) with the real classes",
     "harness/densead.cpp (tree / comparison / factory generators, independent dual-number evaluator with conditioning, finite differences) + lib/vlib.py differ; model driver (compiled Lean)",
     "try-compile probes harness/densead_probe_satan2.cpp, densead_probe_createvarn.cpp (what does not instantiate must be exactly what the translator could not translate)",
-    "modelled, not verified: IEEE rounding (theorems are over an arbitrary field / over the reals), libm, FastSmallVector storage, GPU decorators, MathToolbox<E>::isnan/isfinite/isSame (property mode only)",
+    "modelled, not verified: IEEE rounding (theorems are over an arbitrary field / over the reals), libm, FastSmallVector storage, GPU decorators, scalar MathToolbox<double>::isSame/isnan/isfinite (hand-written at Float in the driver)",
 ]
 FLAGS = ("-ffp-contract=off",)
 
